@@ -24,11 +24,11 @@ Qed.
 
 Definition blen (l : list Z) : Z := Z.of_nat (List.length l).
 
-(** a strict run from [s] that decodes [items], leaves [rest] unread, charges every live region the bytes
-    consumed, and returns a value satisfying [post] *)
+(** a run from [s] that decodes [items], leaves [rest] unread, charges every live region the bytes
+    consumed, leaves the unlisted constraint objects alone, and returns a value satisfying [post] *)
 Definition ok_run {A} (m : M A) (s : st) (items : list item) (rest : list Z) (post : A -> Prop) : Prop :=
   exists tr s' a c, m s = (tr, s', Ok a) /\ shape tr items /\ inp s = c ++ rest /\ inp s' = rest /\
-                    view s' = bump (blen c) (view s) /\ wf_st s' /\ post a.
+                    view s' = bump (blen c) (view s) /\ wf_st s' /\ frame s s' /\ post a.
 
 Lemma ok_bind A B (m : M A) (f : A -> M B) s i1 i2 mid rest (P : A -> Prop) (Q : B -> Prop) :
   ok_run m s i1 mid P ->
@@ -36,20 +36,37 @@ Lemma ok_bind A B (m : M A) (f : A -> M B) s i1 i2 mid rest (P : A -> Prop) (Q :
                 ok_run (f a) s1 i2 rest Q) ->
   ok_run (bind m f) s (i1 ++ i2) rest Q.
 Proof.
-  intros (tr1 & s1 & a & c1 & E1 & Sh1 & I1 & R1 & V1 & W1 & Pa) Hf.
+  intros (tr1 & s1 & a & c1 & E1 & Sh1 & I1 & R1 & V1 & W1 & Fr1 & Pa) Hf.
   assert (L1 : blen (inp s) - blen mid = blen c1) by (rewrite I1; unfold blen; rewrite app_length; lia).
-  destruct (Hf s1 a W1 R1 ltac:(rewrite L1; exact V1) Pa) as (tr2 & s2 & b & c2 & E2 & Sh2 & I2 & R2 & V2 & W2 & Qb).
+  destruct (Hf s1 a W1 R1 ltac:(rewrite L1; exact V1) Pa) as (tr2 & s2 & b & c2 & E2 & Sh2 & I2 & R2 & V2 & W2 & Fr2 & Qb).
   exists (tr1 ++ tr2), s2, b, (c1 ++ c2). unfold bind. rewrite E1, E2.
   split; [reflexivity|]. split; [apply shape_app; assumption|].
   split; [rewrite I1, <- R1, I2, app_assoc; reflexivity|]. split; [exact R2|].
-  split; [|split; assumption].
+  split; [|split; [exact W2|split; [exact (frame_trans _ _ _ Fr1 Fr2)|exact Qb]]].
+  rewrite V2, V1, bump_bump. f_equal. unfold blen. rewrite app_length. lia.
+Qed.
+
+(** the same, the continuation also learning what the first part left alone *)
+Lemma ok_bind_fr A B (m : M A) (f : A -> M B) s i1 i2 mid rest (P : A -> Prop) (Q : B -> Prop) :
+  ok_run m s i1 mid P ->
+  (forall s1 a, wf_st s1 -> inp s1 = mid -> view s1 = bump (blen (inp s) - blen mid) (view s) -> frame s s1 -> P a ->
+                ok_run (f a) s1 i2 rest Q) ->
+  ok_run (bind m f) s (i1 ++ i2) rest Q.
+Proof.
+  intros (tr1 & s1 & a & c1 & E1 & Sh1 & I1 & R1 & V1 & W1 & Fr1 & Pa) Hf.
+  assert (L1 : blen (inp s) - blen mid = blen c1) by (rewrite I1; unfold blen; rewrite app_length; lia).
+  destruct (Hf s1 a W1 R1 ltac:(rewrite L1; exact V1) Fr1 Pa) as (tr2 & s2 & b & c2 & E2 & Sh2 & I2 & R2 & V2 & W2 & Fr2 & Qb).
+  exists (tr1 ++ tr2), s2, b, (c1 ++ c2). unfold bind. rewrite E1, E2.
+  split; [reflexivity|]. split; [apply shape_app; assumption|].
+  split; [rewrite I1, <- R1, I2, app_assoc; reflexivity|]. split; [exact R2|].
+  split; [|split; [exact W2|split; [exact (frame_trans _ _ _ Fr1 Fr2)|exact Qb]]].
   rewrite V2, V1, bump_bump. f_equal. unfold blen. rewrite app_length. lia.
 Qed.
 
 Lemma ok_ret A (a : A) s (P : A -> Prop) : wf_st s -> P a -> ok_run (ret a) s [] (inp s) P.
 Proof.
   intros W Pa. exists [], s, a, []. split; [reflexivity|]. split; [constructor|]. split; [reflexivity|].
-  split; [reflexivity|]. split; [rewrite bump_0; reflexivity|split; assumption].
+  split; [reflexivity|]. split; [rewrite bump_0; reflexivity|split; [exact W|split; [apply frame_refl|exact Pa]]].
 Qed.
 
 Lemma ok_ret' A (a : A) s rest (P : A -> Prop) : wf_st s -> inp s = rest -> P a -> ok_run (ret a) s [] rest P.
@@ -62,7 +79,7 @@ Proof. intros H (tr & s' & a & c & E & R). exists tr, s', a, c. split; [exact E|
 Lemma ok_sev pa t s : wf_st s -> ok_run (emit (sev pa t)) s [INode pa t] (inp s) (fun _ => True).
 Proof.
   intros W. exists [sev pa t], s, tt, []. split; [reflexivity|]. split; [repeat constructor|].
-  split; [reflexivity|]. split; [reflexivity|]. split; [rewrite bump_0; reflexivity|split; [exact W|exact I]].
+  split; [reflexivity|]. split; [reflexivity|]. split; [rewrite bump_0; reflexivity|split; [exact W|split; [apply frame_refl|exact I]]].
 Qed.
 
 (** ---- loops: [rep p f] is [Pos.to_nat p] sequential applications of [f] *)
